@@ -8,6 +8,11 @@
   loaded, query compiled by `callGoal`, run on the query shifted by 10 as `Driver.C01.vmLine` does)
   and `SLD.solveQuery` (the reference interpreter, engine cut semantics) both return, then they
   return the same answers in the same order, up to renaming of variables, and end the same way.
+
+  Stage 3 (`vm_refines_sld_ctl`, `CtlFrag`): + `call/1`, `once/1`, `\\+`, if-then(-else), disjunction at
+  the top level of bodies.  Stage 4a (`vm_refines_sld_callN`, `CallNFrag`): + `call/N`, 2 ≤ N ≤ 8.
+  Stage 4b (`vm_refines_sld_ctl2`, `Ctl2Frag` = `FragS true`, the fragment the proofs work with):
+  + a disjunction as a goal.  The fragments of the earlier stages are instances (`FragG.toS`).
 -/
 import PrologVerif.Proofs.RefineQuery
 namespace PrologVerif.Refine
@@ -137,7 +142,8 @@ theorem vm_query {fl : Bool} (prog : List Term) (query : Term) (max : Nat) (hfra
 
 /-! ## the theorems -/
 
-/-- the general form: `fl = false` is the fragment of stages 1 and 2, `fl = true` adds `call/1` -/
+/-- the general form: `fl = false` is the fragment of stages 1 and 2, `fl = true` adds the control
+    constructs (`ctlGoal`: stages 3 and 4) -/
 theorem vm_refines_sld_S {fl : Bool} (prog : List Term) (query : Term) (max : Nat)
     (hfrag : FragS fl prog query) (hmax : 0 < max)
     (f1 f2 : Nat) (as1 as2 : List Term) (e1 : VM.End) (e2 : SLD.End)
